@@ -150,26 +150,30 @@ RxMsg(w, x, m) == CASE m.t = "please" -> MgrInput(w, x, "rx_PLEASE", 0)
                     [] m.t = "reconnect" -> MgrInput(w, x, "rx_RECONNECT", 0)
                     [] m.t = "reconnecting" -> MgrInput(w, x, "rx_RECONNECTING", 0)
 Replay(w, x, ms) == IF ms = <<>> THEN w ELSE Replay(RxMsg(w, x, Head(ms)), x, Tail(ms))
+\* (Dilator: the peer's dilation messages are held - in order - until the Manager exists *and* the peer's versions have
+\* arrived; whichever of dilate() / the versions message comes last hands them over.  Before the repair 792e89d they were
+\* held only while no Manager existed, and a dilate-0 overtaking the versions message hit Manager.WAITING x rx_PLEASE.)
 AppDilate(x) ==
   /\ mgr[x] = "none" /\ x \in Dilaters /\ ~stopReq[x]
-  /\ LET w0 == [World EXCEPT !.mgr[x] = Init_MGR, !.held[x] = <<>>, !.dstat[x] = "nopeer"]
-         w1 == IF versions[x] THEN MgrInput(w0, x, "start", 0) ELSE w0 IN
-     Commit(Replay(w1, x, held[x]))
+  /\ LET w0 == [World EXCEPT !.mgr[x] = Init_MGR, !.dstat[x] = "nopeer"]
+         w1 == IF versions[x] THEN MgrInput([w0 EXCEPT !.held[x] = <<>>], x, "start", 0) ELSE w0 IN
+     Commit(IF versions[x] THEN Replay(w1, x, held[x]) ELSE w1)
   /\ cuts' = cuts /\ last' = <<"AppDilate", x, 0>>
 
-\* the peer's versions message arrives (always before any of its dilation messages: FIFO per sender)
+\* the peer's versions message arrives - before or after its dilation messages: the mailbox is an unordered set to the
+\* protocol (the Boss restores the order of the dilate-N messages among themselves, not their order relative to "version")
 VersionsArrive(x) ==
   /\ ~versions[x] /\ ~stopReq[x]          \* (a closing Boss ignores the versions message)
   /\ LET w0 == [World EXCEPT !.versions[x] = TRUE] IN
-     Commit(IF mgr[x] # "none" THEN MgrInput(w0, x, "start", 0) ELSE w0)
+     Commit(IF mgr[x] # "none" THEN Replay(MgrInput([w0 EXCEPT !.held[x] = <<>>], x, "start", 0), x, held[x]) ELSE w0)
   /\ cuts' = cuts /\ last' = <<"VersionsArrive", x, 0>>
 
 \* the next dilation control message arrives
 MailboxDeliver(x) ==
-  /\ mq[x] # <<>> /\ versions[x] /\ ~stopReq[x]
+  /\ mq[x] # <<>> /\ ~stopReq[x]
   /\ LET m  == Head(mq[x])
          w0 == [World EXCEPT !.mq[x] = Tail(@)] IN
-     Commit(IF mgr[x] = "none" THEN [w0 EXCEPT !.held[x] = Append(@, m)] ELSE RxMsg(w0, x, m))
+     Commit(IF mgr[x] = "none" \/ ~versions[x] THEN [w0 EXCEPT !.held[x] = Append(@, m)] ELSE RxMsg(w0, x, m))
   /\ cuts' = cuts /\ last' = <<"MailboxDeliver", x, 0>>
 
 \* ---------------------------------------------------------------------------------------------------------------
